@@ -41,7 +41,8 @@ META = {
         'gen_restore_to_line_without_data', 'gen_two_data_statements_on_a_line', 'gen_trapped', 'directed_cases',
         'gen_data_item_with_unclosed_quote', 'gen_line_ending_in_unclosed_string',
         'gen_failed_read_then_resumed', 'gen_integer_overflow_planned', 'ref_read:overflow', 'ref_resume:next',
-        'gen_decoy_data_in_remark', 'gen_decoy_data_in_string', 'gen_line_zero', 'gen_indented_lines']},
+        'gen_decoy_data_in_remark', 'gen_decoy_data_in_string', 'gen_line_zero', 'gen_indented_lines',
+        'gen_read_with_dependent_subscripts', 'gen_nop_before_data_scan']},
     'timeout': {'quick': 600, 'thorough': 7200},
 }
 
@@ -131,6 +132,12 @@ DIRECTED = [
     ('decoy:data-in-remarks-and-string-literals',
      ['10 REM DATA 1:DATA 2', "20 PRINT \"DATA 3\" : ' DATA 4", '30 A$="x:DATA 5', '40   DATA 6', "50 '  DATA 7", '60 READ A:PRINT A:READ B'],
      b'DATA 3\r\n 6 \r\nOut of DATA in 60' + E),
+    ('read-list:later-subscripts-use-values-read-earlier-in-the-list',
+     ['10 DATA 2,7,1,9', '20 N=5:READ N,A(N):PRINT N;A(2);A(5)', '30 READ N,A(N):PRINT N;A(1);A(2)'], b' 2  7  0 \r\n 1  9  7 \r\n'),
+    ('read-list:later-subscripts-use-values-read-earlier-in-the-list',
+     ['10 DATA 1,3,9', '20 READ I%,J%(I%),K(J%(I%)):PRINT I%;J%(1);K(3);J%(0);K(0)'], b' 1  3  9  0  0 \r\n'),
+    ('read-list:later-subscripts-use-values-read-earlier-in-the-list',
+     ['10 DATA 1,5,2,6', '20 READ N%,C%(N%),N%,C%(N%):PRINT N%;C%(0);C%(1);C%(2)'], b' 2  0  5  6 \r\n'),
     ('read-in-subroutine-and-loop', ['10 FOR I%=1 TO 3:GOSUB 100:NEXT:END', '20 DATA 1,2', '100 READ A:PRINT A;:RETURN', '110 DATA 3'],
      b' 1  2  3 '),
 ]
